@@ -9,6 +9,7 @@ import (
 	"net"
 	"os"
 	"sync"
+	"time"
 )
 
 // ---------------------------------------------------------------- recorder
@@ -58,6 +59,7 @@ type Chaos struct {
 	dropNxt map[int16]int          // key -> number of upcoming requests whose response is dropped
 	OnReq   func(key int16, ordinal int)
 	Dropped int
+	stall   map[int16][]time.Duration // key -> delays applied to the responses of the next requests
 }
 
 func NewChaos() *Chaos {
@@ -84,6 +86,30 @@ func (c *Chaos) Count(key int16) int {
 	c.mu.Lock()
 	defer c.mu.Unlock()
 	return c.count[key]
+}
+
+// StallNext delays the response of the next n requests with this key by d (the broker has handled the request;
+// its answer sits on the wire). kfake's SleepControl is avoided on purpose: its hand-over of a sync.Mutex between
+// goroutines is not durably blocking inside a synctest bubble.
+func (c *Chaos) StallNext(key int16, n int, d time.Duration) {
+	c.mu.Lock()
+	if c.stall == nil {
+		c.stall = map[int16][]time.Duration{}
+	}
+	for i := 0; i < n; i++ {
+		c.stall[key] = append(c.stall[key], d)
+	}
+	c.mu.Unlock()
+}
+
+func (c *Chaos) takeStall(key int16) time.Duration {
+	c.mu.Lock()
+	defer c.mu.Unlock()
+	if q := c.stall[key]; len(q) > 0 {
+		c.stall[key] = q[1:]
+		return q[0]
+	}
+	return 0
 }
 
 func (c *Chaos) request(key int16) (drop bool) {
@@ -128,18 +154,19 @@ func (l *chaosListener) Accept() (net.Conn, error) {
 	if err != nil {
 		return nil, err
 	}
-	return &chaosConn{Conn: conn, c: l.c, drop: map[int32]bool{}}, nil
+	return &chaosConn{Conn: conn, c: l.c, drop: map[int32]bool{}, delay: map[int32]time.Duration{}}, nil
 }
 
 // chaosConn is the broker side of a connection: Read delivers client requests to kfake, Write carries kfake's responses.
 type chaosConn struct {
 	net.Conn
-	c    *Chaos
-	mu   sync.Mutex
-	rbuf []byte         // request bytes seen so far, not yet parsed
-	drop map[int32]bool // correlation ids whose response must not be delivered
-	wbuf []byte
-	dead bool
+	c     *Chaos
+	mu    sync.Mutex
+	rbuf  []byte         // request bytes seen so far, not yet parsed
+	drop  map[int32]bool // correlation ids whose response must not be delivered
+	delay map[int32]time.Duration
+	wbuf  []byte
+	dead  bool
 }
 
 func (cc *chaosConn) Read(p []byte) (int, error) {
@@ -160,6 +187,8 @@ func (cc *chaosConn) Read(p []byte) (int, error) {
 			cc.mu.Lock()
 			if d {
 				cc.drop[corr] = true
+			} else if st := cc.c.takeStall(key); st > 0 {
+				cc.delay[corr] = st
 			}
 			cc.rbuf = cc.rbuf[4+size:]
 		}
@@ -191,6 +220,12 @@ func (cc *chaosConn) Write(p []byte) (int, error) {
 			}
 			cc.Conn.Close()
 			return len(p), nil
+		}
+		if d := cc.delay[corr]; d > 0 {
+			delete(cc.delay, corr)
+			cc.mu.Unlock()
+			time.Sleep(d)
+			cc.mu.Lock()
 		}
 		out = append(out, cc.wbuf[:4+size]...)
 		cc.wbuf = cc.wbuf[4+size:]
